@@ -59,6 +59,9 @@ Check(t) ==
          ELSE IF \E i \in DOMAIN t.norm : In(e, [val |-> t.norm[i].q.val, w |-> 1])
                                           /\ \E j \in DOMAIN t.norm[i].out : t.norm[i].out[j] > 256 + Tol \/ t.norm[i].out[j] < -256 - Tol
               THEN <<"normalization-outside-unit-box", DepBox(e), Len(rows)>>          \* (the layer is built from the estimated box)
+         \* the user-set box of the first operand (a product) after the box of the intersection was computed: it still encloses the operand
+         ELSE IF "pbox_hist_exc" \in DOMAIN t /\ t.pbox_hist_exc \notin {"", "none"} THEN <<"bounding-box-history-failed:" \o t.pbox_hist_exc, "", Len(rows)>>
+         ELSE IF "pbox_hist" \in DOMAIN t /\ t.pbox_hist # <<>> /\ ~Encloses(e.l, rows[1], t.pbox_hist) THEN <<"user-set-box-of-an-operand-changed-by-the-intersection", "", Len(rows)>>
          \* the layer selects its input by variable name: the same points with the variables in the opposite order have the same images
          ELSE IF "norm_perm_exc" \in DOMAIN t /\ t.norm_perm_exc # "" THEN <<"normalization-layer-failed(permuted variables):" \o t.norm_perm_exc, "", Len(rows)>>
          ELSE IF "norm_perm" \in DOMAIN t /\ (Len(t.norm_perm) # Len(t.norm) \/ \E i \in DOMAIN t.norm : t.norm_perm[i] # t.norm[i].out)
